@@ -48,7 +48,11 @@ class LPSpec(object):
         self.oracle = oracles.LP_ORACLES.get(prop)
         self.builder = scenarios.BUILDERS[prop]
 
+    big_lane = {'quick': 0.0, 'thorough': 0.0}
+
     def build(self, rng, tier):
+        if rng.random() < self.big_lane[tier]:
+            return self.build_big(rng, tier)
         sc = self.builder(rng, tier)
         sc['tier'] = tier
         if not sc['backend'].get('faults') and \
@@ -56,10 +60,55 @@ class LPSpec(object):
             sc['backend']['policy'] = 'real'
         return sc
 
+    def build_big(self, rng, tier):
+        """real lane at scale: 10-24 students, real CBC, no enumeration"""
+        sw = {'shape': 'big', 'lowq': rng.random() < 0.15,
+              'zero_cap': rng.random() < 0.15}
+        if self.prop == 'C05':
+            sw['twopl'] = True
+        inst = instances.gen_instance(rng, sw)
+        mr = scenarios.maxrank_of(inst)
+        if self.prop == 'C03':
+            name = rng.choice(scenarios.CRIT)
+            crit = [{'name': name, 'pos': rng.randint(1, 9),
+                     'extra': scenarios.gen_extra(rng, name, mr)}]
+        elif self.prop == 'C04':
+            crit = scenarios.gen_criteria(rng, rng.choice([2, 2, 3]), mr)
+        elif self.prop == 'C05':
+            crit = scenarios.gen_criteria(rng, rng.choice([0, 1, 1]), mr,
+                                          pool=['maxsize', 'minsize'])
+        else:
+            crit = scenarios.gen_criteria(rng, rng.choice([0, 1, 2]), mr)
+        opts = {'criteria': crit, 'pc': rng.random() < 0.3,
+                'stab': inst['twopl'] and (self.prop == 'C05' or
+                                           rng.random() < 0.3),
+                'flag_order': None}
+        sc = scenarios.lp_base(rng, inst, opts, policy='real')
+        sc['big'] = True
+        sc['tier'] = tier
+        return sc
+
     def expand(self, sc, rng, tier):
         return [sc]
 
+    def evaluate_big(self, sc):
+        ctx = oracles.LPContext(sc)
+        prefix = None
+        if self.prop == 'C04':
+            prefix = []
+            crit = sorted(sc['opts']['criteria'], key=lambda c: c['pos'])
+            for j in range(1, len(crit)):
+                sub = copy.deepcopy(sc)
+                sub['opts']['criteria'] = crit[:j]
+                trp = execute.run_lp(sub, keep_sets=False)
+                kind, r = oracles.outcome(trp)
+                prefix.append(r['matching'] if kind == 'optimal' else None)
+        tr = execute.run_lp(sc, keep_sets=False)
+        return tr, oracles.big_oracle(self.prop, ctx, tr, prefix)
+
     def evaluate(self, sc, xstats=None, xrng=None):
+        if sc.get('big'):
+            return self.evaluate_big(sc)
         ctx = oracles.LPContext(sc)
         xcheck = None
         if xstats is not None and sc['backend'].get('policy') != 'real':
@@ -151,21 +200,25 @@ def shrink_lp(sc, min_crit=0, keep_stab=False):
         yield c
 
 
-class C03Spec(LPSpec):
+PROPS = {}
+
+class BigLaneSpec(LPSpec):
+    big_lane = {'quick': 0.01, 'thorough': 0.02}
+
+
+class C03Spec(BigLaneSpec):
     min_crit = 1
 
 
-class C04Spec(LPSpec):
+class C04Spec(BigLaneSpec):
     min_crit = 2
 
 
-class C05Spec(LPSpec):
+class C05Spec(BigLaneSpec):
     keep_stab = True
 
 
-PROPS = {}
-
-PROPS['C01'] = LPSpec(
+PROPS['C01'] = BigLaneSpec(
     'C01',
     'seeded S-LP scenarios (instance x option set x tie-break policy); '
     'non-trivial = at least one acceptable-project assignment of the instance '
@@ -198,7 +251,7 @@ PROPS['C05'] = C05Spec(
     'maxsize, minsize}; non-trivial = the stable set is a proper subset of '
     'the valid set; distinct = distinct event-log digests among those',
     {'quick': 30000, 'thorough': 1000000})
-PROPS['C11'] = LPSpec(
+PROPS['C11'] = BigLaneSpec(
     'C11',
     'seeded S-LP scenarios, half without criteria under the uniform '
     'tie-break (every valid matching is optimal); non-trivial = printed '
